@@ -747,8 +747,12 @@ def guarded(c, f):
                 rec["oracle"].append("caller-argument-changed")
     # value and validity arrays of a result field are its own: writing into them leaves the source alone
     # (the bare array a plane selection of a 1-d field returns is documented to be the values themselves)
+    # the result also owns its Region objects (mesh region and subregions): moving the RESULT in place
+    # leaves the operand where it was
     rec.pop("_results", None)
+    own = [f.mesh.region] + list(f.mesh.subregions.values())
     for res in rec2.pop("_results", []):
+        rmesh = res.mesh if isinstance(res, df.Field) else res if isinstance(res, df.Mesh) else None
         if isinstance(res, df.Field):
             if np.shares_memory(res.array, f.array) or np.shares_memory(res.valid, f.valid):
                 rec["oracle"].append("result-shares-arrays-with-source")
@@ -757,8 +761,17 @@ def guarded(c, f):
                 res.valid[...] = ~res.valid
             except Exception:  # noqa: BLE001
                 pass
-    if snap(f) != after:
-        rec["oracle"].append("result-shares-arrays-with-source")
+        if rmesh is not None:
+            theirs = [rmesh.region] + list(rmesh.subregions.values())
+            if rmesh is f.mesh or any(a is b for a in theirs for b in own):
+                rec["oracle"].append("result-shares-state-with-operand")
+            try:
+                rmesh.translate(tuple(float(e) for e in rmesh.region.edges), inplace=True)
+            except Exception:  # noqa: BLE001
+                pass
+    if snap(f) != after and "result-shares-state-with-operand" not in rec["oracle"]:
+        rec["oracle"].append("result-shares-arrays-with-source" if f.array.tobytes() != after[0] or f.valid.tobytes() != after[3]
+                             else "result-shares-state-with-operand")
     rec["oracle"] = sorted(set(rec["oracle"]))
     return rec
 
@@ -882,6 +895,8 @@ def _run_case(c, f):
             call_m = lambda: mesh.sel(**{dim: v})   # noqa: E731
             call_f = lambda: f.sel(**{dim: v})      # noqa: E731
         stm, rm = attempt(call_m)
+        if stm == "ok":
+            rec.setdefault("_results", []).append(rm)
         stf, rf = attempt(call_f)
         if stf == "ok":
             rec.setdefault("_results", []).append(rf)
@@ -1016,6 +1031,8 @@ def _run_case(c, f):
                        key=f'slices/{nd}/{c["cls"]}/{st}/{hash(tuple(c["q1"])) % 3}', size=size)
             return rec
         stm, rm = attempt(lambda: mesh[item])
+        if stm == "ok":
+            rec.setdefault("_results", []).append(rm)
         stf, rf = attempt(lambda: f[item])
         if stf == "ok":
             rec.setdefault("_results", []).append(rf)
@@ -1044,6 +1061,8 @@ def _run_case(c, f):
     if kind == "getname":
         name = c["name"]
         stm, rm = attempt(lambda: mesh[name])
+        if stm == "ok":
+            rec.setdefault("_results", []).append(rm)
         stf, rf = attempt(lambda: f[name])
         if stf == "ok":
             rec.setdefault("_results", []).append(rf)
@@ -1075,6 +1094,8 @@ def _run_case(c, f):
             d["qq"] = (1, 1)
         keep(rec, "pad_width", d)
         stm, rm = attempt(lambda: mesh.pad(d))
+        if stm == "ok":
+            rec.setdefault("_results", []).append(rm)
         stf, rf = attempt(lambda: f.pad(d, mode=md))
         if stf == "ok":
             rec.setdefault("_results", []).append(rf)
